@@ -228,6 +228,14 @@ func gBufferOwnership(c *Ctx, rule string) {
 		if releaseOutsideDefer {
 			good, why = false, "templruntime.ReleaseBuffer is called outside a defer"
 		}
+		// the closure owns its error: the named result that the deferred adoption assigns to is declared by this closure
+		ownErr := false
+		if res := p.Lit.Type.Results; res != nil && len(res.List) == 1 && len(res.List[0].Names) == 1 && res.List[0].Names[0].Name == n.Err {
+			ownErr = true
+		}
+		if good && !ownErr {
+			good, why = false, "the closure does not declare the named error result "+n.Err+" itself: the deferred flush error is assigned to the enclosing function's variable after this closure has already returned nil, and is then overwritten — a failed flush of this block is swallowed"
+		}
 		c.check(good, rule, key, c.pos(p.Fn.Decl.Pos()),
 			"buffer released in a defer only when acquired here; flush error adopted iff no earlier error",
 			p.Fn.Name+": "+why)
